@@ -151,6 +151,24 @@ def perturb(rng, base, kind):
                 {"name": "N", "embedded": False, "json": "n", "validate": "", "type": P("int")}]})
             d["fields"].append({"name": "Late", "embedded": False, "json": "late", "validate": "oneof=a b",
                                 "type": T.named("types", "Zzlast")})
+    elif kind == "template-variable-renamed":
+        # a second route, other verb, same template up to the names of its variables
+        src = pick_route(rng, u, lambda x: any(p["loc"] == "path" for p in x["params"]))
+        if src is None:
+            r["path"] += "/{pv}"
+            r["params"].append({"name": "pv", "loc": "path", "alias": None, "type": P("string"), "validate": None})
+            src = at
+        c = u["ctrls"][src[0]]
+        r = c["routes"][src[1]]
+        twin = {"name": r["name"] + "Twin", "verb": rng.choice([v for v in ("GET", "DELETE", "PUT", "PATCH") if v != r["verb"]]),
+                "path": r["path"], "hidden": False, "params": [], "ret": None, "err": r["err"], "errors": [],
+                "security": []}
+        for p in r["params"]:
+            if p["loc"] == "path":
+                new = wire(p) + "Id"
+                twin["path"] = twin["path"].replace("{" + wire(p) + "}", "{" + new + "}")
+                twin["params"].append({"name": new, "loc": "path", "alias": None, "type": p["type"], "validate": None})
+        c["routes"].append(twin)
     elif kind == "all-hidden":
         for x in T.all_routes(u):
             x["hidden"] = True
@@ -162,18 +180,34 @@ def perturb(rng, base, kind):
 KINDS = ["missing-path-param", "extra-path-param", "duplicate-query-name", "same-name-two-locations",
          "undeclared-scheme", "no-leading-slash", "prefix-param-unmatched", "prefix-param-other-name",
          "prefix-param-matched", "path-alias-not-in-url", "duplicate-url-param", "duplicate-route", "time-alias",
-         "byte-field", "oneof-on-later-struct", "all-hidden"]
+         "byte-field", "oneof-on-later-struct", "all-hidden", "template-variable-renamed"]
 
 
 def f6_universe():
     P = T.prim
     return {"cfg": {"title": "API", "version": "1.0.0", "base_url": "https://api.example.com",
-                    "schemes": [{"name": "sec1", "type": "apiKey", "in": "header", "field": "x-sec1"}], "default": None},
+                    "schemes": [{"name": "sec1", "type": "apiKey", "in": "header", "field": "x-sec1", "flows": []},
+                                copy.deepcopy(C07.OAUTH_SCHEME)], "default": None},
             "decls": [],
             "ctrls": [{"name": "Ctl", "prefix": "/users/{tenant}", "security": [], "routes": [
                 {"name": "M0", "verb": "GET", "path": "/plain", "hidden": False,
                  "params": [{"name": "id", "loc": "path", "alias": None, "type": P("string"), "validate": None}],
                  "ret": P("string"), "err": None, "errors": [], "security": []}]}]}
+
+
+def renamed_variable_universe():
+    """GET /items/{id} + DELETE /items/{itemId}: gleece accepts, kin-openapi must refuse the 3.0 document."""
+    P = T.prim
+    u = f6_universe()
+    u["ctrls"][0]["prefix"] = ""
+    u["ctrls"][0]["routes"] = [
+        {"name": "GetItem", "verb": "GET", "path": "/items/{id}", "hidden": False,
+         "params": [{"name": "id", "loc": "path", "alias": None, "type": P("string"), "validate": None}],
+         "ret": P("string"), "err": None, "errors": [], "security": [{"name": "oauthy", "scopes": ["read"]}]},
+        {"name": "DeleteItem", "verb": "DELETE", "path": "/items/{itemId}", "hidden": False,
+         "params": [{"name": "itemId", "loc": "path", "alias": None, "type": P("string"), "validate": None}],
+         "ret": None, "err": None, "errors": [], "security": []}]
+    return u
 
 
 # ------------------------------------------------------------------ main
@@ -195,6 +229,7 @@ def main():
         if os.path.exists(corpus_file):
             items += [("corpus", u) for u in json.load(open(corpus_file))]
         items.append(("F6-witness", f6_universe()))
+        items.append(("template-variable-renamed", renamed_variable_universe()))
         items.append(("tricky", C07.tricky_universe()))
         items.append(("same-named", C07.same_named_universe()))
         nacc = 12 if quick else 200
